@@ -3,7 +3,7 @@
    finite bitset are instances) and all well-formed terms. *)
 From Coq Require Import Orders List Bool.
 From PG Require Import Model.VS Model.Term Model.Range Model.Instances Proofs.VSLaws Proofs.TermProofs
-  Proofs.RangeVS Proofs.BitsetLawful.
+  Proofs.RangeVS Proofs.BitsetLawful Proofs.GenEq Gen.TermTables.
 
 Section C11.
   Context {VS Vr : Type} (O : VSOps VS Vr) (L : VSLawful O).
@@ -78,6 +78,19 @@ Section C11.
   Proof. exact (t_is_disjoint_pre_fix_refuted O L). Qed.
 End C11.
 
+(* tie to the source: the sign tables regenerated from src/term.rs by tools/translate.py on this run are
+   the tables of the model *)
+Theorem term_tables_match_source :
+  forall (VS Vr : Type) (O : VSOps VS Vr),
+    (forall t, gen_t_negate t = t_negate (VS := VS) t)
+    /\ (forall t v, gen_t_contains O t v = t_contains O t v)
+    /\ (forall t u, gen_t_intersection O t u = t_intersection O t u)
+    /\ (forall t u, gen_t_union O t u = t_union O t u)
+    /\ (forall t u, gen_t_is_disjoint O t u = t_is_disjoint O t u)
+    /\ (forall t u, gen_t_subset_of O t u = t_subset_of O t u)
+    /\ (forall t u, gen_t_relation_with O t u = t_relation_with O t u).
+Proof. intros VS Vr O. exact (GenEq.term_tables_match_source O). Qed.
+
 (* the hypotheses are satisfiable: Range over any ordered type, and the bitset with default methods *)
 Module C11Range (V : UsualOrderedTypeFull).
   Module Import P := RangeVSP V.
@@ -106,3 +119,4 @@ Print Assumptions term_wf_closed.
 Print Assumptions term_is_disjoint_pre_fix_refuted.
 Print Assumptions C11RangeZ.range_is_lawful.
 Print Assumptions bitset_is_lawful.
+Print Assumptions term_tables_match_source.
